@@ -17,16 +17,52 @@ theorem allBytes_drop {bs : List Nat} (h : AllBytes bs) (n : Nat) : AllBytes (bs
 theorem allBytes_append {a b : List Nat} : AllBytes (a ++ b) ↔ AllBytes a ∧ AllBytes b := by
   simp [AllBytes, or_imp, forall_and]
 
+theorem inRange_l {v : Int} (h : -2147483648 ≤ v ∧ v < 2147483648) : SC.l.inRange v = true := by
+  simp [SC.inRange, h]
+
 /-- one `l` field: unpack then pack gives the four bytes back -/
 theorem pack_l_unpack (b0 b1 b2 b3 : Nat) (h0 : b0 < 256) (h1 : b1 < 256) (h2 : b2 < 256) (h3 : b3 < 256) :
     pack [.l] [SC.l.value (leNat [b0, b1, b2, b3])] = some [b0, b1, b2, b3] := by
   have hr : SC.l.inRange (SC.l.value (leNat [b0, b1, b2, b3])) = true := by
-    simp [SC.inRange, SC.value, leNat]; omega
+    apply inRange_l
+    simp only [SC.value, leNat]; omega
   rw [pack_cons_some hr, pack_nil]
   simp only [Option.map_some, SC.size, SC.value, leNat, leBytes4_sext]
   simp only [leBytes, leBytesFrom, Int.reduceMul, Int.ediv_one, List.cons_append, List.nil_append,
     List.append_nil, Option.some.injEq, List.cons.injEq, and_true]
   omega
+
+theorem packInts_nil : packInts [] = some [] := by rw [packInts]
+
+theorem packInts_cons (v : Int) (vs : List Int) :
+    packInts (v :: vs) = match pack [.l] [v], packInts vs with
+      | some a, some b => some (a ++ b)
+      | _, _ => none := by rw [packInts]; rfl
+
+theorem readInts_zero (buf : List Nat) : readInts 0 buf = some [] := by rw [readInts]
+
+theorem readInts_succ (n : Nat) (buf : List Nat) :
+    readInts (n + 1) buf = match unpack [.l] (buf.take 4) with
+      | some [v] => (match readInts n (buf.drop 4) with
+        | some r => some (v :: r)
+        | none => none)
+      | _ => none := by rw [readInts]; rfl
+
+/-- `unpack [l]` of a 4-byte slice -/
+theorem unpack_l_some {buf : List Nat} {vs : List Int} (h : unpack [.l] (buf.take 4) = some vs) :
+    ∃ b0 b1 b2 b3 r, buf = b0 :: b1 :: b2 :: b3 :: r ∧ vs = [SC.l.value (leNat [b0, b1, b2, b3])] := by
+  unfold unpack at h
+  split at h
+  · rename_i hlen
+    have : 4 ≤ buf.length := by
+      simp only [List.length_take, calcsize, SC.size, List.map_cons, List.map_nil, List.sum_cons, List.sum_nil] at hlen
+      omega
+    obtain ⟨b0, b1, b2, b3, r, rfl⟩ := ex4 buf this
+    refine ⟨b0, b1, b2, b3, r, rfl, ?_⟩
+    simp only [Option.some.injEq] at h
+    rw [← h]
+    simp only [unpackGo, SC.size, List.take_succ_cons, List.take_zero]
+  · simp at h
 
 /-- `readInts` followed by `packInts` restores the bytes read -/
 theorem readInts_packInts : ∀ (n : Nat) (buf : List Nat) (ts : List Int), AllBytes buf → readInts n buf = some ts →
@@ -35,37 +71,34 @@ theorem readInts_packInts : ∀ (n : Nat) (buf : List Nat) (ts : List Int), AllB
   induction n with
   | zero =>
     intro buf ts _ h
-    simp only [readInts, Option.some.injEq] at h
+    rw [readInts_zero] at h
+    simp only [Option.some.injEq] at h
     subst h
-    simp [packInts]
+    exact ⟨by rw [packInts_nil]; rfl, Nat.zero_le _, rfl⟩
   | succ n ih =>
     intro buf ts hb h
-    simp only [readInts] at h
+    rw [readInts_succ] at h
     split at h
     · rename_i v hu
+      obtain ⟨b0, b1, b2, b3, r', rfl, hv⟩ := unpack_l_some hu
+      simp only [List.cons.injEq, and_true] at hv
+      simp only [allBytes_cons] at hb
+      obtain ⟨h0, h1, h2, h3, hr'⟩ := hb
+      have hp := pack_l_unpack b0 b1 b2 b3 h0 h1 h2 h3
+      rw [← hv] at hp
+      clear hv hu
+      simp only [List.drop_succ_cons, List.drop_zero] at h
       split at h
       · rename_i r hr
         simp only [Option.some.injEq] at h
         subst h
-        simp only [unpack, calcsize, SC.size, List.map_cons, List.map_nil, List.sum_cons, List.sum_nil] at hu
-        split at hu
-        · rename_i hlen
-          simp only [List.length_take] at hlen
-          obtain ⟨b0, b1, b2, b3, r', rfl⟩ := ex4 buf (by omega)
-          simp only [allBytes_cons] at hb
-          obtain ⟨h0, h1, h2, h3, hr'⟩ := hb
-          simp only [unpackGo, SC.size, List.take_succ_cons, List.take_zero, Option.some.injEq, List.cons.injEq,
-            and_true] at hu
-          subst hu
-          simp only [List.drop_succ_cons, List.drop_zero] at hr
-          obtain ⟨ih1, ih2, ih3⟩ := ih r' r hr' hr
-          refine ⟨?_, ?_, ?_⟩
-          · simp only [packInts, pack_l_unpack b0 b1 b2 b3 h0 h1 h2 h3, ih1]
-            have : 4 * (n + 1) = 4 * n + 4 := by omega
-            simp [this, List.take_succ_cons]
-          · simp only [List.length_cons]; omega
-          · simp [ih3]
-        · simp at hu
+        obtain ⟨ih1, ih2, ih3⟩ := ih r' r hr' hr
+        refine ⟨?_, ?_, ?_⟩
+        · rw [packInts_cons, hp, ih1]
+          have : 4 * (n + 1) = 4 * n + 4 := by omega
+          simp only [this, List.take_succ_cons, List.cons_append, List.nil_append]
+        · simp only [List.length_cons]; omega
+        · simp only [List.length_cons, ih3]
       · simp at h
     · simp at h
 
